@@ -73,6 +73,15 @@ for fn, nm in ((1, 'strfirstdiff_s'), (2, 'strfirstsame_s'), (3, 'strlastdiff_s'
       enforce='_%s_chk' % nm, functions=['_%s_chk' % nm], sliced=False, timeout=600, fallback='B.q.%s' % nm,
       note='two separate exact-fit objects of symbolic size, dmax any 64-bit value, object size of dest known or unknown to the library')
 
+for fn, nm in ((1, 'timingsafe_bcmp'), (2, 'timingsafe_memcmp')):
+    src = 'src/extmem/%s.c' % nm
+    J('A.%s' % nm, ['C19', 'C02', 'C05', 'C01'], 'A', 'contracts/extmem/timingsafe.spec.c',
+      defines=['FN=%d' % fn], sources=[src], overlays={src: 'contracts/extmem/%s.loops' % nm},
+      instrument=[['--branch', 'verif_branch']],
+      enforce='_%s_chk' % nm, functions=['_%s_chk' % nm], sliced=False, timeout=600, fallback='B.%s' % nm,
+      note='every n: branch-event counters (goto-instrument --branch) as ghost state in the loop contract, two runs on independent contents',
+      assumptions=['C19: data independence is shown on the C abstract machine (branch events of the goto program); compiler-introduced branches and micro-architectural effects are out of scope'])
+
 # ---- engine B: copy / concatenate family against the reference model in harness/copyfam.c
 STR_COMMON = ['src/str/safe_str_constraint.c', 'src/str/strnlen_s.c', 'src/ignore_handler_s.c']
 WCS_COMMON = STR_COMMON + ['src/wchar/wcsnlen_s.c']
